@@ -14,16 +14,21 @@ EXTENDS TextTab, Json
 
 B(b) == IF b THEN 1 ELSE 0
 
-CaseOf ==
-  LET lay == OpLayout(cells, shrink) IN
+CaseOf(lay, n) ==
   [tag    |-> "case", kind |-> "table",
    cells  |-> [i \in DOMAIN cells |-> <<cells[i].row, cells[i].col, cells[i].span, cells[i].w, cells[i].mk, cells[i].al>>],
    shrink |-> [c \in 1..MaxCols |-> B((c - 1) \in shrink)],
-   offs   |-> [c \in 1..(NColsOf(cells) + 1) |-> lay.offs[c - 1]],
+   offs   |-> [c \in 1..(n + 1) |-> lay.offs[c - 1]],
    obs    |-> [i \in DOMAIN cells |-> <<B(lay.obs.cells[i].p), lay.obs.cells[i].line, lay.obs.cells[i].g,
                                        lay.obs.cells[i].s, lay.obs.cells[i].e>>],
    lines  |-> lay.obs.lines]
 
-\* checked as an invariant: prints, and is TRUE
-EmitCase == cells = <<>> \/ PrintT(ToJson(CaseOf))
+\* checked as an invariant: the layout meets the requirements (LayoutOK), and the
+\* case is printed (PrintT is TRUE)
+EmitCase ==
+  cells = <<>> \/
+    LET n   == NColsOf(cells)
+        lm  == LMOf(cells)
+        lay == OpLayoutX(cells, shrink, n, lm)
+    IN LayoutOKOf(lay, n, lm) /\ PrintT(ToJson(CaseOf(lay, n)))
 =============================================================================
